@@ -1,20 +1,74 @@
-from lib import TieCheck
+import os
+import re
+
+import lib
+from lib import TieCheck, COQ, REPO, Lock, go_env, sh
+
+
+def broken_lemmas(log, area="Route"):
+    """'File "./BridgeEntry.v", line 57' -> 'BridgeEntry.v: gen_Txn_Route_eq (line 57)'."""
+    out = []
+    for m in re.finditer(r'File "\./([A-Za-z0-9_]+\.v)", line (\d+)', log):
+        f, ln = m.group(1), int(m.group(2))
+        try:
+            src = open(os.path.join(COQ, area, f)).read().splitlines()[:ln]
+        except OSError:
+            continue
+        name = None
+        for line in src:
+            mm = re.match(r"\s*(?:Lemma|Theorem|Corollary|Example|Fact|Definition|Fixpoint)\s+([A-Za-z0-9_']+)", line)
+            if mm:
+                name = mm.group(1)
+        item = "%s: %s (line %d)" % (f, name, ln)
+        if item not in out:
+            out.append(item)
+    return out
 
 
 class C01(TieCheck):
     pid = "C01"
     area = "Route"
     props = ["Props_C01.v", "Props_C01_spec.v", "Props_C01_lazy.v", "Props_C01_static.v", "Props_C01_e2e.v", "Props_C01_single.v", "Props_C09_e2e.v"]
+    # the check's own theorems and the correspondence are built without the tie-A files (EntrySem / GenEntry / BridgeEntry):
+    # a broken tie is reported as such (gen) and the cases are still evaluated / searched for a failing input
     coq_targets = ["Corr.vo"]
-    extra_props = [("Compose", "Props_Compose.v")]
+    # tie A for the entry points (docs/GenC01.md): Props_GenEntry.v is re-checked with the property files
+    extra_props = [("Compose", "Props_Compose.v"), ("Route", "Props_GenEntry.v")]
     gentie = "C01"
     harness = "c01"
     extra_trust = ["model M1: coq/Route/Lookup.v transliterates lookupByPath / lookupByDomain / roots.lookup (node.go:85-600) over pure trees (coq/Route/Node.v); specification S: coq/Route/Spec.v (matcher over the list of registered patterns)",
-                   "the tree each case is evaluated on is the dump of the real router (verif_export.go); the stripped host is taken from netutil.StripHostPort (oracle input)"]
+                   "the tree each case is evaluated on is the dump of the real router (verif_export.go); the stripped host is taken from netutil.StripHostPort (oracle input)",
+                   "coq/Route/GenEntry.v is regenerated from fox.go / txn.go / iter.go / tree.go / context.go on every run by harness/cmd/entrygen (Router and Txn Lookup / Reverse / Route / Has, Iter.Reverse, iTree.lookup, getRoot, resetNil / resetWithWriter / Close); coq/Route/BridgeEntry.v proves the entry-point models of LazyProofs2.v equal to it for all inputs; trusted: entrygen itself and the primitives of coq/Route/EntrySem.v (docs/GenC01.md)"]
     assumptions = ["request paths without empty segments are in the specification's domain (C01 text); others are compared implementation-vs-model only"]
 
     def harness_args(self, tier):
         return ["tier=" + tier, "prop=C01"]
+
+    def gen(self, tier):
+        ok0, o0 = TieCheck.gen(self, tier)
+        ok1, o1 = self.gen_entry()
+        return ok0 and ok1, (o0 or "") + o1
+
+    def gen_entry(self):
+        """tie A for the entry-point wrappers: entrygen rewrites coq/Route/GenEntry.v from the tree under test, then
+        BridgeEntry.v / Props_GenEntry.v are rebuilt.  A refusal or a bridge lemma that no longer compiles is a broken
+        tie; the lemma is named."""
+        exe, o = lib.build_harness("entrygen")
+        if exe is None:
+            return False, "entrygen build failed:\n" + o[-2000:]
+        with Lock("coq.Route"):
+            rc, og = sh([exe, "repo=" + REPO, "out=" + os.path.join(COQ, "Route", "GenEntry.v")], env=go_env(), timeout=300)
+        refused = "\n".join(l for l in og.splitlines() if "REFUSED" in l)
+        okb, lb = lib.coq_build("Route", targets=["Props_GenEntry.vo"])
+        if rc == 0 and okb:
+            return True, og
+        bl = broken_lemmas(lb) if not okb else []
+        named = ("broken bridge lemma: " + ", ".join(bl)) if bl else ""
+        k = lb.find('File "./')
+        err = "" if okb else (lb[k:k + 1200] if k >= 0 else lb[-1200:])
+        head = "tie A (entrygen, docs/GenC01.md): the entry-point wrappers of %s are no longer proved equal to the models of coq/Route/LazyProofs2.v" % REPO
+        msg = "\n".join(x for x in [head, refused[:900], named, err, ("==> " + named) if named else "", ("==> " + refused[:600]) if refused else ""] if x)
+        return False, msg
 
 
 CHECK = C01()
